@@ -84,6 +84,10 @@ func Generate(ctx context.Context, wd string, env []string, patterns []string, o
 	if opts == nil {
 		opts = &GenerateOptions{}
 	}
+	if name := opts.PrefixOutputFile + "wire_gen.go"; filepath.Base(name) != name || strings.ContainsAny(name, `/\`) {
+		// The output belongs in the directory of its package.
+		return nil, []error{fmt.Errorf("output file prefix %q must not contain a path separator", opts.PrefixOutputFile)}
+	}
 	pkgs, errs := load(ctx, wd, env, opts.Tags, patterns)
 	if len(errs) > 0 {
 		return nil, errs
